@@ -228,6 +228,52 @@ def zip_ratio(mib: int):
             "threshold is irrelevant here: the member is above the per-member limit) and one 5-byte member")
 
 
+def container_member_understated(claim: int, member: str = "content.xml", mib: int = 96):
+    """An ODT whose `member` really inflates to `mib` MiB (blanks inside the XML) while its central-directory record
+    claims `claim` bytes: the bomb guard judges the claim, so the reader must not inflate more than the claim."""
+    from props import c11
+    ns = ('xmlns:office="urn:oasis:names:tc:opendocument:xmlns:office:1.0" xmlns:text="urn:oasis:names:tc:opendocument:xmlns:text:1.0"')
+    pad = b" " * (mib * 1024 * 1024)
+    content = (f'<?xml version="1.0"?><office:document-content {ns}><office:body><office:text><text:p>x</text:p>'.encode() +
+               (pad if member == "content.xml" else b"") + b'</office:text></office:body></office:document-content>')
+    manifest = (b'<?xml version="1.0"?><manifest:manifest xmlns:manifest="urn:oasis:names:tc:opendocument:xmlns:manifest:1.0">' +
+                (pad if member == "META-INF/manifest.xml" else b"") + b'</manifest:manifest>')
+    buf = io.BytesIO()
+    with zipfile.ZipFile(buf, "w", zipfile.ZIP_DEFLATED, compresslevel=9) as z:
+        z.writestr("mimetype", "application/vnd.oasis.opendocument.text", compress_type=zipfile.ZIP_STORED)
+        z.writestr("content.xml", content)
+        z.writestr("META-INF/manifest.xml", manifest)
+    data = buf.getvalue()
+    zin = zipfile.ZipFile(io.BytesIO(data))
+    idx = [i.filename for i in zin.infolist()].index(member)
+    cs = zin.infolist()[idx].compress_size
+    forged = c11.forge(data, {idx: (claim, cs)})
+    return (f"container-member-understates-size:{member}:{claim}", "x.odt", forged,
+            f"ODT: {member} inflates to {mib} MiB but its central-directory record claims {claim} bytes (compressed {cs})")
+
+
+def nested_archives(name: str, fanout: int = 6, depth: int = 6):
+    """A ZIP holding `fanout` copies of a ZIP holding ... (`depth` levels), every inner archive stored under `name`: nested
+    archives are never opened recursively, whatever their member name looks like."""
+    inner = b""
+    buf = io.BytesIO()
+    with zipfile.ZipFile(buf, "w", zipfile.ZIP_DEFLATED) as z:
+        z.writestr("leaf.txt", "leaf")
+    inner = buf.getvalue()
+    for _ in range(depth):
+        buf = io.BytesIO()
+        with zipfile.ZipFile(buf, "w", zipfile.ZIP_DEFLATED) as z:
+            for k in range(fanout):
+                z.writestr(f"d{k}/{name}", inner)
+            z.writestr("top.txt", "top")
+        inner = buf.getvalue()
+    return (f"nested-archives:{name}", "x.zip", inner, f"ZIP of {fanout}^{depth} nested ZIPs stored as '{name}' ({len(inner)} bytes)")
+
+
+NESTED_NAMES = ["inner.zip", "inner.ZIP", "inner.zip.br", "inner.tar.br", "inner.taz", "inner.tz", "inner.tar.Z", "inner.zip.gz",
+                "inner.tgz", "inner.jar", "inner.docx", "inner.bin", "inner"]
+
+
 def all_amplifiers(quick: bool):
     out = [xlsx_declared_dimension(), xlsx_far_cell(1048576 if not quick else 300000), xlsx_far_column(), docx_entities(),
            docx_deep(200 if quick else 2000), docx_deep(40), odt_deep(200 if quick else 2000), odt_deep(40),
@@ -235,6 +281,14 @@ def all_amplifiers(quick: bool):
            rtf_deep(50000 if quick else 400000), rtf_unclosed(50000 if quick else 400000),
            pdf_page_tree_loop(), pdf_outline_loop(), pdf_xobject_recursion(),
            targz_ratio(64 if quick else 512), zip_ratio(32 if quick else 64)]
+    for claim in ((0, 100) if quick else (0, 1, 100, 65536)):
+        for member in (("content.xml", "META-INF/manifest.xml") if not quick else ("META-INF/manifest.xml",)):
+            try:
+                out.append(container_member_understated(claim, member, 64 if quick else 192))
+            except Exception:  # noqa
+                pass
+    for nm in (NESTED_NAMES[:7] if quick else NESTED_NAMES):
+        out.append(nested_archives(nm, 6, 5 if quick else 6))
     for k in ("doc", "ppt", "xls"):
         a = ole_property_vector(k)
         if a:
